@@ -18,6 +18,7 @@ from electrumx.server.block_processor import BlockProcessor, OnDiskBlock   # noq
 from electrumx.server.db import DB                                  # noqa: E402
 from electrumx.server.env import Env                                # noqa: E402
 from electrumx.server import daemon as daemon_mod                   # noqa: E402
+from electrumx.lib import util as util_mod                          # noqa: E402
 
 
 def make_coin(activation=4, prefetch=4):
@@ -37,6 +38,26 @@ def make_coin(activation=4, prefetch=4):
 
 CHUNK_OVERRIDE = None       # a case may shrink OnDiskBlock.chunk_size (block files are then
 #                             streamed in many chunks, as blocks above 25 MB are in production)
+
+
+# a case may shrink the three meta files' physical file size (production: 16 MB / 2 MB, i.e. the
+# first file boundary is at 200,000 headers / 500,000 tx hashes / 250,000 tx counts), so that single
+# records and whole flushes straddle physical files as they do on a chain that long.
+# 1 = sizes that are not multiples of the record size, 2 = exactly two records per file
+META_SIZES = {1: {'meta/headers': 200, 'meta/txcounts': 20, 'meta/hashes': 100},
+              2: {'meta/headers': 160, 'meta/txcounts': 16, 'meta/hashes': 64}}
+META_OVERRIDE = 0
+_RealLogicalFile = util_mod.LogicalFile
+
+
+class _SizedLogicalFile(_RealLogicalFile):
+    def __init__(self, prefix, digits, file_size):
+        if META_OVERRIDE:
+            file_size = META_SIZES[META_OVERRIDE].get(prefix, file_size)
+        super().__init__(prefix, digits, file_size)
+
+
+util_mod.LogicalFile = _SizedLogicalFile
 
 
 def reset_globals():
